@@ -22,8 +22,8 @@ ROOT = os.path.dirname(os.path.dirname(os.path.dirname(os.path.abspath(__file__)
 
 def sizes(ctx):
     if ctx.quick:
-        return dict(core=260, excon=110, nola=30, wide=24, retry=90, flags=50, fusion=70, altsplice=400, circ=250)
-    return dict(core=15000, excon=6000, nola=800, wide=800, retry=3000, flags=3000, fusion=3000, altsplice=4000, circ=3000)
+        return dict(core=260, excon=110, nola=30, wide=24, retry=90, flags=50, fusion=70, altsplice=400, circ=250, graph=300)
+    return dict(core=15000, excon=6000, nola=800, wide=800, retry=3000, flags=3000, fusion=3000, altsplice=4000, circ=3000, graph=6000)
 
 def limited(rng, base):
     return dict(base, mvpn=rng.choice([1, 2, 3, 7]), avpm=rng.choice([0, 1, 2]),
@@ -251,8 +251,9 @@ def run(ctx):
                 continue
         keep.append(v)
     CK.annotate_stability(ctx, [v for v in keep if not CK2.is_ext(v.get('replay_obj', {}).get('case', {}))], judge, want_may=True)
+    graph_ev = graph_stream(ctx, sizes(ctx).get('graph', 0), keep, stats, stream_wall, cnt)      # stream 'graph' (appended below)
     samples = [dict(CK.strip_case(c), world='<omitted>') for c in cases[:3]]
-    return dict(evaluations=sum(v for k, v in stats.items() if k.startswith('runs:')),
+    return dict(graph_stage=graph_ev, evaluations=sum(v for k, v in stats.items() if k.startswith('runs:')),
                 distinct_nontrivial=stats['nontrivial'],
                 rule='one evaluation = one callVariant run with binding complexity limits; every emitted sequence is tested '
                      'with the proved decider realizable; non-trivial = the run emitted at least one peptide',
@@ -268,6 +269,8 @@ def run(ctx):
                 trusted_base=['glue coq/Extract/Api_Spec.v, Api_SpecAS.v, Api_SpecCirc.v', 'case generators harness/lib/cvgen.py, cvgen2.py (gene -> transcript / donor / fragment coordinates by ground truth) and signature predicates harness/lib/cvsig.py, cvsig2.py'])
 
 def replay(ctx, obj):
+    if obj.get('what') == 'graph':
+        return graph_replay(ctx, obj)
     c = obj['case']
     c['stream'] = 'core' if obj.get('what') == 'limits' else obj.get('what', 'replay')
     if obj.get('what') == 'retry' and len(c['runs']) > 1:
@@ -310,3 +313,35 @@ def circ_cases(ctx, n, la_other):
         c['stream'] = 'circ'
         out.append(c)
     return out
+
+
+# ------------------------------------------------------------------ appended: graph-stage correspondence (docs/absgraph.md)
+from harness.lib import cvgraph as GR
+
+def graph_stream(ctx, n, violations, stats, stream_wall, cnt):
+    """stream 'graph': callVariant is run with --graph-output-dir; the dumped TVG / PVG of every transcript (and the
+    snapshots between the stages) are converted to the encoding of Model/AbsGraph.v and checked by the extracted
+    Coq functions against Spec.apply_hap / must_haps (bubbles), the codon-wise translation, and Digest.sites
+    (cleavage).  A failure names the stage; known findings D14 / D14b are recognised by the boundary verdict."""
+    if not n:
+        return {}
+    vs = []
+    gstats = collections.Counter()
+    cases, wall = GR.run_stream(ctx, n, vs, gstats)
+    stream_wall['graph'] = wall
+    for v in vs:
+        if v.get('finding'):
+            cnt[v['finding']] += 1
+            if cnt[v['finding']] > 40:
+                continue
+        violations.append(v)
+    stats['runs:graph'] += gstats['runs:graph']
+    stats['nontrivial'] += gstats['nontrivial']
+    return {'stats': dict(gstats), 'wall_s': wall, 'max_paths_per_graph': GR.MAX_PATHS,
+            'skipped_graphs_too_many_paths': gstats['skipped_too_many_paths'],
+            'stages': list(GR.STAGES),
+            'not_checkable_from_dump': 'PVG node flags truncated / cleavage / npop_collapsed and the stop sink are not part of jsonfy(): '
+                                       'with node collapsing active the boundary check is "every site is a boundary" only'}
+
+def graph_replay(ctx, obj):
+    return GR.replay(ctx, obj, reps=int(obj.get('repeat', 2)))
